@@ -627,3 +627,25 @@ def finish_with_errors(ex: Extracted, run: Run) -> None:
         run.note(f"undecided: reader of {short(c)} not extracted: {msg}")
     if ex.errors and not run.findings:
         raise AnalysisError("reader grammar not extracted for " + ", ".join(f"{short(c)} ({m})" for c, m in ex.errors.items()))
+
+
+def value_codec_is_delegated(model, cls_q: str) -> Optional[str]:
+    """get_value / unpack of a control class hand the value to a codec object or function the extractor does not open (a call
+    on a freshly constructed object, a callable from another module) instead of using an ASN1Writer / ASN1Reader themselves:
+    the text of the call, or None"""
+    import ast as _ast
+    from .srcmodel import norm as _norm, walk_no_nested as _walk
+    for mname, prim_cls in (("get_value", "ASN1Writer"), ("unpack", "ASN1Reader")):
+        fi = model.find_method(cls_q, mname)
+        if fi is None or isinstance(fi.node, _ast.Lambda):
+            continue
+        uses_prim = any(isinstance(x, _ast.Call) and _norm(x.func).split(".")[-1] == prim_cls for x in _walk(fi.node))
+        if uses_prim:
+            continue
+        for x in _walk(fi.node):
+            if isinstance(x, _ast.Call) and isinstance(x.func, _ast.Attribute) and isinstance(x.func.value, (_ast.Call, _ast.Name)):
+                root = x.func.value.func if isinstance(x.func.value, _ast.Call) else x.func.value
+                q = model.resolve_name(fi.module, _norm(root)) if isinstance(root, (_ast.Name, _ast.Attribute)) else None
+                if q in model.classes and q != cls_q and not model.is_subclass(cls_q, q):
+                    return f"{fi.qualname.split('sansldap.')[-1]}: {_norm(x)[:60]}"
+    return None
